@@ -45,6 +45,8 @@ func upgradeVestingAccounnt(ctx sdk.Context, appKeepers cfeupgradetypes.AppKeepe
 	}
 	startTime := time.Unix(vestingAccount.StartTime, 0)
 	endTime := time.Unix(vestingAccount.EndTime, 0)
+	// time.Unix yields local time: shift by one calendar year in UTC so that every node computes the same instants
+	startTime, endTime = startTime.UTC(), endTime.UTC()
 	vestingAccount.StartTime = startTime.AddDate(1, 0, 0).Unix()
 	vestingAccount.EndTime = endTime.AddDate(1, 0, 0).Unix()
 	appKeepers.GetAccountKeeper().SetAccount(ctx, vestingAccount)
